@@ -330,13 +330,16 @@ class LiteralMethod(DeserializationMethod):
     types: Tuple[type, ...]
 
     def deserialize(self, data: Any) -> Any:
+        # bool and int values are equal (and hash-equal) in Python but distinct in JSON,
+        # that's why value_map keys are (is_bool, value) pairs
         try:
-            return self.value_map[data]
+            return self.value_map[isinstance(data, bool), data]
         except KeyError:
             if self.coercer is not None:
                 for cls in self.types:
                     try:
-                        return self.value_map[self.coercer(cls, data)]
+                        coerced = self.coercer(cls, data)
+                        return self.value_map[isinstance(coerced, bool), coerced]
                     except KeyError:
                         pass
             raise ValidationError(format_error(self.error, data))
